@@ -6,7 +6,8 @@
     External numerics are fields of the generated record [env]:
       derivT, evaluate        the effective potential and its T-derivative (any functions);
       minimize_bounded        scipy.optimize.minimize_scalar(method="Bounded") -> .x
-      root_bracketed          scipy.optimize.root_scalar(bracket=...)          -> .root
+      root_bracketed          scipy.optimize.root_scalar(bracket=, xtol=, rtol=) -> .root
+                              (the generated call hands it the translated xtol and rtol)
     and are constrained only by explicit hypotheses of the theorems that need them. *)
 From Coq Require Import Reals Lra Lia List Psatz.
 From WG Require Import Lib.NumpySem Lib.Plasma Lib.PlasmaLoop.
@@ -40,6 +41,10 @@ Proof.
     replace x with (4 * s1 ^ 2 + (- T * derivT e fields T) ^ 2) by ring end.
   field.
 Qed.
+
+(** the stopping tolerances that the generated call hands to the root finder *)
+Definition XTOL : R := 1 / 10000000000.
+Definition RTOL (e : env) : R := errTol e / 10.
 
 (** ** T^{30}: the generated velocity solves  w gamma^2(v) v = s1,  |v| < 1, uniquely *)
 Lemma velocity_T30 e fields T s1 :
@@ -280,7 +285,7 @@ Inductive outcome (T v : R) : Prop :=
     F tmin < 0 -> (if det then detonation else ~ detonation) ->
     a = tmin * multiplier det ^ k -> b = a * multiplier det ->
     F a < 0 -> 0 <= F b ->
-    T = root_bracketed e F a b -> v = plasmaVelocity e fields T s1 -> outcome T v.
+    T = root_bracketed e F a b XTOL (RTOL e) -> v = plasmaVelocity e fields T s1 -> outcome T v.
 
 Lemma point_cases :
   exists T v, findPlasmaProfilePoint e index c1 c2 velocityMid fields dPhidz D Tplus Tminus = Some (T, v)
@@ -342,8 +347,8 @@ Lemma point_eval_root (det : bool) (k : nat) :
   let M := multiplier det in
   (forall j, (j < k)%nat -> F (tmin * M * M ^ j) < 0) -> 0 <= F (tmin * M * M ^ k) ->
   findPlasmaProfilePoint e index c1 c2 velocityMid fields dPhidz D Tplus Tminus
-  = Some (root_bracketed e F (tmin * M ^ k) (tmin * M * M ^ k),
-          plasmaVelocity e fields (root_bracketed e F (tmin * M ^ k) (tmin * M * M ^ k)) s1).
+  = Some (root_bracketed e F (tmin * M ^ k) (tmin * M * M ^ k) XTOL (RTOL e),
+          plasmaVelocity e fields (root_bracketed e F (tmin * M ^ k) (tmin * M * M ^ k) XTOL (RTOL e)) s1).
 Proof.
   intros Hneg Hdet Hk M Hj Hpos. unfold findPlasmaProfilePoint. rewrite let_pair. cbv zeta.
   change (c1 - fst (deltaToTmunu e index fields velocityMid D)) with s1.
@@ -364,7 +369,7 @@ Qed.
     on a sign-change bracket it returns a zero lying between the ends *)
 Definition root_contract :=
   forall a b, F a < 0 -> 0 <= F b ->
-    F (root_bracketed e F a b) = 0 /\ Rmin a b <= root_bracketed e F a b <= Rmax a b.
+    F (root_bracketed e F a b XTOL (RTOL e)) = 0 /\ Rmin a b <= root_bracketed e F a b XTOL (RTOL e) <= Rmax a b.
 
 (** Conservation: whenever the point solver takes the root path, both components of the
     energy-momentum tensor are reproduced exactly; on EVERY path T^{30} is reproduced and the
@@ -423,6 +428,36 @@ Proof.
     assert (a < b) by (rewrite Hb; nra).
     rewrite Rmin_left in Rlo by lra.
     split; [intros _; lra | intro N; contradiction].
+Qed.
+
+(** what scipy documents for a bracketing solver: the returned value is within
+    xtol + rtol |r| of an exact zero r lying in the bracket -- for WHATEVER tolerances it is given *)
+Definition root_contract_tol :=
+  forall a b xt rt, F a < 0 -> 0 <= F b ->
+    exists r, Rmin a b <= r <= Rmax a b /\ F r = 0 /\
+              Rabs (root_bracketed e F a b xt rt - r) <= xt + rt * Rabs r.
+
+(** Accuracy of the returned temperature with the tolerances of the generated call: the error is
+    RELATIVE (errTol/10 of the root) up to the fixed floor 1e-10, hence independent of the unit
+    system for temperatures well above 1e-9; with a Lipschitz bound of the LHS the T^{33} residual
+    is bounded accordingly. *)
+Lemma point_accuracy T v (L : R) :
+  findPlasmaProfilePoint e index c1 c2 velocityMid fields dPhidz D Tplus Tminus = Some (T, v) ->
+  (T, v) <> (0, 0) -> F tmin < 0 -> root_contract_tol ->
+  (forall x y, Rabs (F x - F y) <= L * Rabs (x - y)) -> 0 <= L ->
+  exists r, F r = 0 /\ Rabs (T - r) <= 1 / 10 ^ 10 + errTol e / 10 * Rabs r /\
+            Rabs (F T) <= L * (1 / 10 ^ 10 + errTol e / 10 * Rabs r).
+Proof.
+  intros H Hnz Hneg RC Lip HL.
+  destruct point_cases as [T' [v' [H' O]]]. rewrite H in H'. injection H' as <- <-.
+  destruct O as [Hpos _ _ | _ -> -> | det a b k _ _ _ _ Fa Fb -> _]; [lra | exfalso; apply Hnz; reflexivity |].
+  destruct (RC a b XTOL (RTOL e) Fa Fb) as [r [_ [Fr Hr]]].
+  exists r. split; [exact Fr|].
+  assert (E : Rabs (root_bracketed e F a b XTOL (RTOL e) - r) <= 1 / 10 ^ 10 + errTol e / 10 * Rabs r).
+  { unfold XTOL, RTOL in Hr. replace (1 / 10 ^ 10) with (1 / 10000000000) by lra. exact Hr. }
+  split; [exact E|].
+  specialize (Lip (root_bracketed e F a b XTOL (RTOL e)) r). rewrite Fr, Rminus_0_r in Lip.
+  eapply Rle_trans; [exact Lip|]. apply Rmult_le_compat_l; assumption.
 Qed.
 End Point.
 
@@ -605,7 +640,7 @@ Theorem profile_point_conserves : forall e index c1 c2 velocityMid fields dPhidz
   w * gammaSq v * v + Tout30 = c1 /\ -1 < v < 1 /\
   1 / 2 * sum_list (map (fun x : R => x ^ 2) dPhidz) - evaluate e fields T + w * gammaSq v * v ^ 2 + Tout33 - c2 = F T /\
   (F tmin < 0 ->
-   (forall a b, F a < 0 -> 0 <= F b -> F (root_bracketed e F a b) = 0 /\ Rmin a b <= root_bracketed e F a b <= Rmax a b) ->
+   (forall a b, F a < 0 -> 0 <= F b -> F (root_bracketed e F a b XTOL (RTOL e)) = 0 /\ Rmin a b <= root_bracketed e F a b XTOL (RTOL e) <= Rmax a b) ->
    F T = 0).
 Proof. intros e index c1 c2 velocityMid fields dPhidz D Tplus Tminus T v. exact (point_conserves e index c1 c2 velocityMid fields dPhidz D Tplus Tminus T v). Qed.
 Print Assumptions profile_point_conserves.
@@ -617,7 +652,7 @@ Theorem branch_rule : forall e index c1 c2 velocityMid fields dPhidz D Tplus Tmi
   let tmin := minimize_bounded e F 0 (2 * Rmax Tplus Tminus) in
   findPlasmaProfilePoint e index c1 c2 velocityMid fields dPhidz D Tplus Tminus = Some (T, v) ->
   (T, v) <> (0, 0) -> F tmin < 0 -> 0 < tmin -> 0 < Tminus ->
-  (forall a b, F a < 0 -> 0 <= F b -> F (root_bracketed e F a b) = 0 /\ Rmin a b <= root_bracketed e F a b <= Rmax a b) ->
+  (forall a b, F a < 0 -> 0 <= F b -> F (root_bracketed e F a b XTOL (RTOL e)) = 0 /\ Rmin a b <= root_bracketed e F a b XTOL (RTOL e) <= Rmax a b) ->
   (~ Rabs (Tnucl e - Tplus) < 1 / 10 ^ 10 -> tmin <= T) /\
   (Rabs (Tnucl e - Tplus) < 1 / 10 ^ 10 -> 0 < T <= tmin).
 Proof. intros e index c1 c2 velocityMid fields dPhidz D Tplus Tminus T v. exact (point_branch e index c1 c2 velocityMid fields dPhidz D Tplus Tminus T v). Qed.
@@ -636,8 +671,8 @@ Theorem bracket_is_first_sign_change : forall e index c1 c2 velocityMid fields d
   (k <= 100)%nat ->
   (forall j, (j < k)%nat -> F (tmin * M * M ^ j) < 0) -> 0 <= F (tmin * M * M ^ k) ->
   findPlasmaProfilePoint e index c1 c2 velocityMid fields dPhidz D Tplus Tminus
-  = Some (root_bracketed e F (tmin * M ^ k) (tmin * M * M ^ k),
-          plasmaVelocity e fields (root_bracketed e F (tmin * M ^ k) (tmin * M * M ^ k)) (c1 - Tout30)).
+  = Some (root_bracketed e F (tmin * M ^ k) (tmin * M * M ^ k) XTOL (RTOL e),
+          plasmaVelocity e fields (root_bracketed e F (tmin * M ^ k) (tmin * M * M ^ k) XTOL (RTOL e)) (c1 - Tout30)).
 Proof. intros e index c1 c2 velocityMid fields dPhidz D Tplus Tminus det k. exact (point_eval_root e index c1 c2 velocityMid fields dPhidz D Tplus Tminus det k). Qed.
 Print Assumptions bracket_is_first_sign_change.
 
@@ -651,6 +686,23 @@ Theorem no_root_returns_minimum : forall e index c1 c2 velocityMid fields dPhidz
   = Some (tmin, plasmaVelocity e fields tmin (c1 - Tout30)).
 Proof. intros e index c1 c2 velocityMid fields dPhidz D Tplus Tminus. exact (point_eval_early e index c1 c2 velocityMid fields dPhidz D Tplus Tminus). Qed.
 Print Assumptions no_root_returns_minimum.
+
+(** the tolerances of the bracketed solve, as facts extracted from the generated call, and the
+    resulting accuracy: relative (errTol/10) with an absolute floor of 1e-10 only *)
+Theorem root_accuracy_is_relative : forall e index c1 c2 velocityMid fields dPhidz D Tplus Tminus T v L,
+  let Tout30 := fst (deltaToTmunu e index fields velocityMid D) in
+  let Tout33 := snd (deltaToTmunu e index fields velocityMid D) in
+  let F := fun T : R => temperatureProfileEqLHS e fields dPhidz T (c1 - Tout30) (c2 - Tout33) in
+  let tmin := minimize_bounded e F 0 (2 * Rmax Tplus Tminus) in
+  findPlasmaProfilePoint e index c1 c2 velocityMid fields dPhidz D Tplus Tminus = Some (T, v) ->
+  (T, v) <> (0, 0) -> F tmin < 0 ->
+  (forall a b xt rt, F a < 0 -> 0 <= F b ->
+     exists r, Rmin a b <= r <= Rmax a b /\ F r = 0 /\ Rabs (root_bracketed e F a b xt rt - r) <= xt + rt * Rabs r) ->
+  (forall x y, Rabs (F x - F y) <= L * Rabs (x - y)) -> 0 <= L ->
+  exists r, F r = 0 /\ Rabs (T - r) <= 1 / 10 ^ 10 + errTol e / 10 * Rabs r /\
+            Rabs (F T) <= L * (1 / 10 ^ 10 + errTol e / 10 * Rabs r).
+Proof. intros e index c1 c2 velocityMid fields dPhidz D Tplus Tminus T v L. exact (point_accuracy e index c1 c2 velocityMid fields dPhidz D Tplus Tminus T v L). Qed.
+Print Assumptions root_accuracy_is_relative.
 
 (** the loop over the grid (generated findPlasmaProfile): it always returns; the success flag is
     true EXACTLY when every point solver call returned a positive temperature; the stored profile
@@ -685,7 +737,7 @@ Theorem success_implies_T33_refuted :
       + (- Tp 0%nat * derivT e (fields 0%nat) (Tp 0%nat)) * gammaSq (vp 0%nat) * vp 0%nat ^ 2
       + snd (deltaToTmunu e 0 (fields 0%nat) velocityMid D) - c2 > 0.
 Proof.
-  set (e := mk_env (fun _ T => - 4 * T ^ 3) (fun _ T => - T ^ 4) 1 [] (fun _ _ _ => 1) (fun _ a _ => a)).
+  set (e := mk_env (1 / 1000) (fun _ T => - 4 * T ^ 3) (fun _ T => - T ^ 4) 1 [] (fun _ _ _ => 1) (fun _ a _ _ _ => a)).
   set (D := mk_Deltas (fun _ _ => 0) (fun _ _ => 0) (fun _ _ => 0) (fun _ _ => 0)).
   assert (Hd : forall f v, deltaToTmunu e 0 f v D = (0, 0)).
   { intros f v. apply deltaToTmunu_zero. intro i. repeat split; reflexivity. }
@@ -720,13 +772,13 @@ Print Assumptions success_implies_T33_refuted.
 (** non-vacuity: an ideal gas (V = -a T^4, w = 4 a T^4) with one particle satisfies the hypotheses
     of the conservation theorems at T = 1, s1 = -1 *)
 Example hypotheses_satisfiable :
-  let e := mk_env (fun _ T => - 4 * T ^ 3) (fun _ T => - T ^ 4) 1 [mk_particle 12 (fun _ => 1)]
-                  (fun _ a _ => a) (fun _ a _ => a) in
+  let e := mk_env (1 / 1000) (fun _ T => - 4 * T ^ 3) (fun _ T => - T ^ 4) 1 [mk_particle 12 (fun _ => 1)]
+                  (fun _ a _ => a) (fun _ a _ _ _ => a) in
   0 < - 1 * derivT e [] 1 /\ (-1 : R) <> 0 /\ -1 < plasmaVelocity e [] 1 (-1) < 0.
 Proof.
   cbn [derivT]. split; [lra|]. split; [lra|].
-  pose proof (velocity_T30 (mk_env (fun _ T => - 4 * T ^ 3) (fun _ T => - T ^ 4) 1 [mk_particle 12 (fun _ => 1)]
-                  (fun _ a _ => a) (fun _ a _ => a)) [] 1 (-1)) as H.
+  pose proof (velocity_T30 (mk_env (1 / 1000) (fun _ T => - 4 * T ^ 3) (fun _ T => - T ^ 4) 1 [mk_particle 12 (fun _ => 1)]
+                  (fun _ a _ => a) (fun _ a _ _ _ => a)) [] 1 (-1)) as H.
   unfold enthalpy in H. cbn [derivT] in H.
   destruct H as [E [[L U] _]]; [lra|lra|]. split; [exact L|].
   set (v := plasmaVelocity _ [] 1 (-1)) in *.
